@@ -7,18 +7,21 @@ class CDevice2(Device):
   ''' Same curve as IDevice2 but applied to the scalar sum of consumption. '''
   _p_h = 0
   _p_l = -1
-  _cost_fn = None
 
   def __init__(self, id, length, bounds, cbounds, **kwargs):
     super().__init__(id, length, bounds, cbounds, **kwargs)
     if not self.cbounds:
       self.cbounds = [self.lbounds.sum(), self.hbounds.sum()]
+    if len(self.cbounds) > 1 and self.cbounds[-1][3] != len(self):
+      raise ValueError('cbounds ranges must cover the whole horizon [0,%d)' % (len(self),))
+    self._cost_fn  # RangesFunction validates the ranges.
+
+  @property
+  def _cost_fn(self):
+    ''' Built from the current settings, so parameters and cbounds assigned after construction take effect. '''
     if len(self.cbounds) == 1:
-      self._cost_fn = InnerSumFunction(HLQuadraticCost(self.p_l, self.p_h, self.cbounds[0][0], self.cbounds[0][1]))
-    else:
-      if self.cbounds[-1][3] != len(self):
-        raise ValueError('cbounds ranges must cover the whole horizon [0,%d)' % (len(self),))
-      self._cost_fn = RangesFunction([((c[2], c[3]), InnerSumFunction(HLQuadraticCost(self.p_l, self.p_h, c[0], c[1]))) for c in self.cbounds])
+      return InnerSumFunction(HLQuadraticCost(self.p_l, self.p_h, self.cbounds[0][0], self.cbounds[0][1]))
+    return RangesFunction([((c[2], c[3]), InnerSumFunction(HLQuadraticCost(self.p_l, self.p_h, c[0], c[1]))) for c in self.cbounds])
 
   def cost(self, s, p):
     return self._cost_fn(s) + np.array(s*p).sum()
